@@ -38,8 +38,20 @@ def hexe (s : Str) : String :=
 def list (l : List Str) : String := "[" ++ " ".intercalate (l.map hexe) ++ "]"
 def opt (o : Option Str) : String := match o with | some s => "some " ++ hexe s | none => "none"
 
-def parseEnv : Parse.Env :=
-  { keyChar := fun c => c.isAlphanum || c == '-' || c.toNat ≥ 128, validRaw := fun r => (P.unquoteValue true r).isSome }
+/-- Rust `char::is_alphanumeric` (Alphabetic or Numeric), exact below U+0250: ASCII letters and digits, ª µ º, the
+    superscript digits and vulgar fractions of Latin-1 (category No), and the letters of Latin-1 Supplement and Latin
+    Extended-A/B (everything from U+00C0 to U+024F except × and ÷).  Above U+024F the answer is a parameter. -/
+def isAlnumLow (c : Char) : Bool :=
+  let n := c.toNat
+  c.isAlphanum || n == 0xaa || n == 0xb5 || n == 0xba || n == 0xb2 || n == 0xb3 || n == 0xb9 || (0xbc ≤ n && n ≤ 0xbe) ||
+  (0xc0 ≤ n && n ≤ 0x24f && n != 0xd7 && n != 0xf7)
+
+def parseEnvWith (high : Bool) : Parse.Env :=
+  { keyChar := fun c => c == '-' || (if c.toNat ≥ 0x250 then high else isAlnumLow c),
+    validRaw := fun r => (P.unquoteValue true r).isSome }
+
+/-- characters above U+024F count as key characters here; `parseOp` answers `out-of-model` when that choice matters -/
+def parseEnv : Parse.Env := parseEnvWith true
 
 def dumpUnit (u : Parse.Unit) : String :=
   " ".intercalate (u.flatMap fun (sec, es) => ("S" ++ hexe sec) :: es.flatMap fun (k, v) => ["K" ++ hexe k, "V" ++ hexe v])
@@ -150,9 +162,13 @@ def step (line : String) : String :=
       | none => "err"
   | ["split_word", a] => "ok " ++ list (P.splitArgs (hexd a))
   | ["split_strv", a] => "ok " ++ list (P.splitStrv (hexd a))
-  | ["parse", a] => match Parse.parse parseEnv (hexd a) with
-      | .ok u => "ok " ++ dumpUnit u
-      | .error _ => "err"
+  | ["parse", a] =>
+      let show' (r : Except Parse.Err Parse.Unit) : String := match r with
+        | .ok u => "ok " ++ dumpUnit u
+        | .error _ => "err"
+      let r1 := show' (Parse.parse (parseEnvWith true) (hexd a))
+      let r2 := show' (Parse.parse (parseEnvWith false) (hexd a))
+      if r1 == r2 then r1 else "out-of-model"
   | "unit" :: script => unitScript [] [] script
   | "convert" :: iu :: ord :: rest =>
       convertOp (iu == "1") (if ord == "-" then [] else (ord.splitOn ",").map String.toNat!) (pairsOf rest)
